@@ -6,6 +6,7 @@ NAMES="$@"; [ -z "$NAMES" ] && NAMES=$(ls seeded | grep '^C[0-9]')
 for N in $NAMES; do
   [ -f seeded/$N/patch.diff ] || continue
   P=${N%%_*}
+  grep -q '"obsolete": true' seeded/$N/meta.json && { echo "$N | obsolete (code it changes was replaced by a fix), skipped"; continue; }
   M=$(tools/mutant_run.sh seeded/$N/patch.diff $P 2>&1 | grep '^MUTANT' | head -1)
   echo "$N | $M"
   python3 - "$N" "$M" <<'PY'
